@@ -1,9 +1,11 @@
 use crate::runner::Property;
 
+pub mod c10;
 pub mod c15;
 
 pub fn get(id: &str) -> Option<Property> {
     Some(match id {
+        "C10" => c10::property(),
         "C15" => c15::property(),
         _ => return None,
     })
